@@ -356,9 +356,14 @@ def _real_c11(case):
         warnings.simplefilter("ignore")
         try:
             g = _mk_real_ghe(n1, n2, H, soil_k, pipe, 12)
-            for fam in ("single", "triple"):
+            for fam in ("single", "triple", "triple-other-radius"):
                 if fam == "triple":
                     g.compute_g_functions()
+                if fam == "triple-other-radius":
+                    # the stored long-time family was computed for another borehole radius than the exchanger's: the radius correction is not zero
+                    other = 0.06 if n1 % 2 else 0.1
+                    g.gFunction.r_b_values = {hh: other for hh in g.gFunction.r_b_values}
+                    g.gFunction.interpolation_table = {}
                 gf, _ = g.grab_g_function(g.B_spacing / g.bhe.b.H)
                 x, y = np.array(gf.x), np.array(gf.y)
                 lt = np.array(g.gFunction.log_time)
@@ -377,6 +382,8 @@ def _real_c11(case):
                     bad.append(f"{fam}: the part before the first long-time point is not the short-time response")
                 if k != int(np.sum(sts_x < lt[0])):
                     bad.append(f"{fam}: short-time points below the first long-time point were dropped ({k} kept of {int(np.sum(sts_x < lt[0]))})")
+                if fam == "triple-other-radius" and abs(math.log(g.bhe.b.r_b / float(rbv))) < 0.1:
+                    bad.append("harness: radius ratio too close to one")
                 if fam == "triple":
                     # interpolating the family at a stored height returns the stored curve
                     for hh in g.gFunction.g_lts:
